@@ -53,7 +53,7 @@ impl<'a> Interp<'a> {
             max_steps: 2_000_000,
             sites_evaluated: 0,
             branches_skipped: 0,
-            consts: vec![],
+            consts: prog.defs.consts.iter().map(|(n, _, v)| (n.clone(), v.clone())).collect(),
         }
     }
 
